@@ -480,8 +480,20 @@ def uri_state_machine(R, P):
     order = {"ON_SCHEME": 0, "ON_AUTHORITY": 1, "ON_PATH": 2, "ON_QUERY_STRING": 3, "FINISHED": 4, "ERROR": 5}
     own = {"s_parse_scheme": 0, "s_parse_authority": 1, "s_parse_path": 2, "s_parse_query_string": 3}
     tab = (P.globals.get("s_states") or {}).get("init", {}).get("array", [])
-    R.check([x.get("fn") for x in tab] == ["s_parse_scheme", "s_parse_authority", "s_parse_path", "s_parse_query_string"], "PROGRESS", "uri:state-table", "source/uri.c", "state table maps each state to its function",
-            "the URI state table is %s" % [x.get("fn") for x in tab])
+    mapping = [x.get("fn") for x in tab]
+    d0 = P.fn("s_init_from_uri_str")
+    if not tab and d0 is not None:
+        # the same dispatch written as a switch on the state in the driver: each case label calls its own state function
+        bycase = {}
+        dom0 = dominators(d0)
+        for nm in own:
+            for c in d0.calls(nm):
+                cases = [b for b in d0.blocks.values() if b.case is not None and (b.id == c.blk or b.id in dom0.get(c.blk, ()))]
+                for b in cases:
+                    bycase.setdefault(b.case, set()).add(nm)
+        mapping = [sorted(bycase.get(P.enums.get(k), {None}), key=str)[0] if len(bycase.get(P.enums.get(k), ())) == 1 else None for k in ("ON_SCHEME", "ON_AUTHORITY", "ON_PATH", "ON_QUERY_STRING")]
+    R.check(mapping == ["s_parse_scheme", "s_parse_authority", "s_parse_path", "s_parse_query_string"], "PROGRESS", "uri:state-table", "source/uri.c", "each state is dispatched to its own function (table or switch)",
+            "the URI state dispatch is %s" % mapping)
     from sa.cfg import Typestate
     for name, me in own.items():
         f = P.fn(name)
@@ -533,7 +545,14 @@ def uri_state_machine(R, P):
                     if x["k"] == "un" and x["op"] == "addr" and (d.d(x["a"][0]) or {}).get("k") == "var" and d.d(x["a"][0])["n"] == "uri_cur":
                         users.append(x)
         direct = [c for g in P.fns.values() for nm in own for c in g.calls(nm)]
-        R.check(len(ind) == 1 and len(users) == 1 and len(ind[0].node["a"]) == 2 and d.show(ind[0].node["a"][1]) == "&uri_cur" and not direct, "PROGRESS", "uri:state-cursor-is-private", "%s()" % d.name,
+        if not ind and direct:
+            # switch dispatch: the four direct calls all sit in the driver and each is handed the address of its local cursor
+            in_driver = [c for nm in own for c in d.calls(nm)]
+            okd = len(in_driver) == len(direct) == len(own) and len(users) == len(in_driver) and all(len(c.node["a"]) == 2 and d.show(c.node["a"][1]) == "&uri_cur" for c in in_driver)
+            R.check(okd, "PROGRESS", "uri:state-cursor-is-private", "%s()" % d.name, "the state functions are called only from the driver, with the address of its local cursor, which is taken nowhere else",
+                    "the cursor parameter of the URI state functions is assumed to designate a private local of the driver, but they are called otherwise")
+        else:
+          R.check(len(ind) == 1 and len(users) == 1 and len(ind[0].node["a"]) == 2 and d.show(ind[0].node["a"][1]) == "&uri_cur" and not direct, "PROGRESS", "uri:state-cursor-is-private", "%s()" % d.name,
                 "the state functions are called only through the table, with the address of the driver's local cursor, which is taken nowhere else",
                 "the cursor parameter of the URI state functions is assumed to designate a private local of the driver, but they are called otherwise")
         loops = [d.show(b.cond) for b in d.blocks.values() if b.term == "while" and b.cond is not None]
